@@ -68,6 +68,7 @@ def _case(draw):
         "mode": "run" if (sampler in ("smc", "emcee_smc") and "affine" not in pre and pre != "flow" and draw(st.integers(0, 5)) == 0) else "direct",
         "seed": draw(st.integers(0, 2**31 - 1)),
     }
+    case["nan_like"] = bool(draw(st.integers(0, 5)) == 0) and case["mode"] == "direct" and sampler in ("smc", "emcee_smc", "blackjax_smc")  # the NaN clause of the property is about SMC
     if case["mode"] == "run":
         # optionally a run that stops at the step cap (beta < 1) and is then enlarged: the final kernel must target beta = 1
         case["cap"] = draw(st.booleans())
@@ -109,7 +110,14 @@ def _make(case, rec):
 
     def log_likelihood(samples):
         x = samples.x
-        val = _memo("L", x, lambda: -0.5 * xp.sum(((x - xp.asarray(mu, dtype=x.dtype)) / xp.asarray(sig, dtype=x.dtype)) ** 2, axis=-1))
+        def compute():
+            v = -0.5 * xp.sum(((x - xp.asarray(mu, dtype=x.dtype)) / xp.asarray(sig, dtype=x.dtype)) ** 2, axis=-1)
+            if case.get("nan_like"):
+                # a likelihood that is undefined (NaN) on the lower part of the first coordinate's range, at every temperature
+                v = xp.where(x[:, 0] < float(lo[0] + 0.3 * w[0]), xp.asarray(float("nan"), dtype=x.dtype), v)
+            return v
+
+        val = _memo("L", x, compute)
         rec.calls["L"].append((env.to_np(x).astype(np.float64), env.to_np(val).astype(np.float64)))
         return val
 
@@ -361,6 +369,8 @@ def run_case(case, ctx):
         j = int(np.argmax(~((a1 == a2) | (np.isnan(a1) & np.isnan(a2))))) if a1.shape == a2.shape else 0
         ctx.fail("re-evaluation-differs", f"evaluating the target twice at the same points gives {a1.reshape(-1)[j]!r} then {a2.reshape(-1)[j]!r}: "
                                           f"an array returned by a user callable was modified in place", case, sampler=case["sampler"], ns=case["ns"])
+    if case.get("nan_like"):
+        labels.append("likelihood-undefined-on-part-of-the-support")
     if special:
         labels.append("zero-prior-or-nan-point")
     labels.append("beta=1" if beta == 1.0 else "beta<1")
